@@ -1075,6 +1075,24 @@ func (l *Layout) ClassOf(a *RR) (cls string) {
 			if len(asSeq(v)) > 0 {
 				return "flat-bitmap"
 			}
+		case "bitmap":
+			if !increasing(asSeq(v)) {
+				return "unordered"
+			}
+		case "svcb":
+			keys := []interface{}{}
+			for _, p := range asSeq(v) {
+				pm := asMap(p)
+				keys = append(keys, pm["key"])
+				for _, pe := range l.SvcbFields(asInt(pm["key"])) {
+					if pe.K == "u16list" && !increasing(asSeq(asMap(pm["f"])[pe.N])) {
+						return "unordered"
+					}
+				}
+			}
+			if !increasing(keys) {
+				return "unordered"
+			}
 		case "opts":
 			for _, o := range asSeq(v) {
 				om := asMap(o)
@@ -1089,6 +1107,15 @@ func (l *Layout) ClassOf(a *RR) (cls string) {
 		}
 	}
 	return ""
+}
+
+func increasing(s []interface{}) bool {
+	for i := 1; i < len(s); i++ {
+		if asInt(s[i]) <= asInt(s[i-1]) {
+			return false
+		}
+	}
+	return true
 }
 
 // KeyOf is the type+class part of a finding key for one record.
